@@ -1,5 +1,5 @@
 (** C10 — correspondence ([agree]) and the spec-side predicate on the implementation's output ([holds]). *)
-From V Require Import Base.Util Gql.Ast Writer.Wop Ts.TsType Ts.TsDen C10.Model C10.Spec C10.Domain C10.JsdocProofs C10.NameProofs C10.ResolverProofs.
+From V Require Import Base.Util Gql.Ast Writer.Wop Ts.TsType Ts.TsDen C10.Model C10.Spec C10.Domain C10.JsdocProofs C10.NameProofs C10.ResolverProofs C10.Parse.
 
 (** result of one run of a Rust printer: the coalesced recorded operations, the returned error,
     or the caught panic (site numbered as in Model.res) *)
@@ -81,11 +81,32 @@ Fixpoint comments_ok (in_c : bool) (l : str) {struct l} : bool :=
       end
   end.
 
+(** the implementation's text, read back with the emitted-subset reader: it must parse, and every
+    alias of every namespace must decide like [Ref] on the candidates of its type *)
+Definition raw_local (doc : tsdoc) (l : str) : bool :=
+  existsb (fun td => match td with
+                     | TDScalar _ _ n _ _ => str_eqb l (iname n) || str_eqb l (TMP_PREFIX ++ iname n)
+                     | _ => false
+                     end) (typedefs doc).
+
+Definition impl_exact (o : sopts) (doc : tsdoc) (ops : list wop) : bool :=
+  match parse_schema_text (raw_local doc) (raw_text ops) with
+  | Some nss =>
+      forallb (fun t =>
+        match find (fun nm => str_eqb (fst nm) (target_str t)) nss with
+        | Some nm => namespace_exact o doc t (map as_member (snd nm))
+        | None => false
+        end) all_targets
+  | None => false
+  end.
+
 Definition run_ok (o : sopts) (doc : tsdoc) (out : res (list wop)) : bool :=
   match out with
   | Ok ops =>
       comments_ok false (raw_text ops)
-      && (if wf_schema o doc && res_eqb (print_schema o doc) out then model_exact o doc else true)
+      && (* the reader takes null/undefined/never/unknown for the keywords: schemas with a type of such a
+            name are the known finding reported by the CNames cases *)
+         (if wf_schema o doc && no_keyword_names doc then impl_exact o doc ops else true)
   | ErrScalar _ _ => negb (wf_schema o doc)          (* an error only when a scalar has no configured type *)
   | Panic _ => negb (wf_schema o doc)                (* no panic on a well-formed schema *)
   end.
